@@ -29,6 +29,7 @@ VERIF = os.path.dirname(os.path.dirname(os.path.abspath(__file__)))
 COQ = os.path.join(VERIF, "coq")
 CACHE = os.path.join(VERIF, ".cache")
 CARGO_ENV = {"CARGO_NET_OFFLINE": "true"}
+REPO_UNDER_TEST = "/repo"
 
 FORBIDDEN = [
     r"\bAdmitted\b", r"\badmit\b", r"\bAxiom\b", r"\bAxioms\b", r"\bParameter\b", r"\bParameters\b",
@@ -39,6 +40,17 @@ FORBIDDEN = [
 
 class ToolError(Exception):
     pass
+
+
+def jobs():
+    """Parallel coqc workers: all 16 cores when the machine is idle, fewer under load."""
+    if os.environ.get("VERIF_JOBS"):
+        return max(1, int(os.environ["VERIF_JOBS"]))
+    try:
+        load = os.getloadavg()[0]
+    except OSError:
+        load = 0
+    return max(3, min(16, int(17 - load)))
 
 
 def log(*a):
@@ -210,7 +222,7 @@ def coq_build(targets, clean=False, timeout=3000):
         stack += deps[v]
     done, outs, failed = set(), [], []
     pending = set(cone)
-    with ThreadPoolExecutor(max_workers=16) as ex:
+    with ThreadPoolExecutor(max_workers=jobs()) as ex:
         running = {}
         while pending or running:
             ready = [v for v in pending if all(d in done for d in deps[v])]
@@ -330,6 +342,7 @@ def run_harness(binpath, seed, n, tier, extra, timeout, env=None):
     cmd = [binpath, "--seed", str(seed), "--n", str(n), "--tier", tier] + extra
     e = dict(os.environ)
     e["VERIF_DIR"] = VERIF
+    e["VERIF_REPO"] = REPO_UNDER_TEST
     if env:
         e.update(env)
     t0 = time.time()
@@ -382,7 +395,7 @@ def eval_cases(cfg, cases, workdir, shard, timeout):
         return k, idx, out
 
     bad = []
-    with ThreadPoolExecutor(max_workers=16) as ex:
+    with ThreadPoolExecutor(max_workers=jobs()) as ex:
         for k, idx, out in ex.map(one, range(len(shards))):
             if idx is None:
                 raise ToolError("model evaluation failed on shard %d:\n%s" % (k, out[-3000:]))
@@ -431,6 +444,8 @@ def main():
     ap.add_argument("--n", type=int, default=None)
     ap.add_argument("--keep", action="store_true")
     a = ap.parse_args()
+    global REPO_UNDER_TEST
+    REPO_UNDER_TEST = os.path.realpath(a.repo)
     pid, tier = a.pid, a.tier
     if tier not in ("quick", "thorough"):
         tier = "quick"
